@@ -304,8 +304,13 @@ def run_reject(case: Dict[str, Any], ctx) -> None:
         ctx.violation(key + ":silently-ignored", f"shape {tuple(y.shape)} vs reference-with-argument {tuple(w.shape)}")
         return
     s, res, _ = fit_scalar(y, w)
-    if s is not None and res <= 1e-10 and s > 0:
+    is_loss = fn in ("cross_entropy", "mse_loss")
+    if s is not None and res <= 1e-10 and s > 0 and (not is_loss or abs(s - 1.0) <= 1e-10):
         ctx.count("reject:honoured")
+        return
+    if is_loss and s is not None and res <= 1e-10 and s > 0:
+        # accepted, forwarded to PyTorch, but the reported loss is a multiple of PyTorch's: for losses the scalar must be exactly 1
+        ctx.violation(key + ":accepted-but-loss-not-equal-to-pytorch", f"U / F = {s!r} with the argument given", what=what)
         return
     s2, res2, _ = fit_scalar(y, wo) if tuple(y.shape) == tuple(wo.shape) else (None, 1.0, 0)
     if s2 is not None and res2 <= 1e-10:
